@@ -170,6 +170,8 @@ func (x *Exec) ceval(env *CEnv, e CExpr, want string) Term {
 		x.cfail(env, "cannot index sort %s", b.Sort)
 	case CCall:
 		return x.ccall(env, e, want)
+	case CMeth:
+		return x.cmeth(env, e, want)
 	}
 	x.cfail(env, "unsupported contract expression %T", e)
 	return Term{}
@@ -690,6 +692,13 @@ func mentionsState(e CExpr) bool {
 		return mentionsState(e.Body)
 	case CField:
 		return true
+	case CMeth:
+		for _, a := range e.Args {
+			if mentionsState(a) {
+				return true
+			}
+		}
+		return mentionsState(e.X)
 	case CIndex:
 		return mentionsState(e.X) || mentionsState(e.I)
 	case CCall:
